@@ -133,4 +133,17 @@ Configs4 == {Cfg(PlainNames, e, "", "", NoLk, FALSE, mode, fmt, ";") : e \in (IF
 Lefts4(c, n) == {s \in Lists(LT4, n) : c.mode = "-s" => SortedBy(Ref1(FALSE), s, <<"#1">>)}
 Rights4(c, n) == {s \in Lists(RT4, n) : c.mode = "-s" => SortedBy(Ref1(FALSE), s, <<"#1">>)}
 CaseX(c, l, r) == [c |-> c, left |-> InstListX(l, LF(c), RF(c), c.j), right |-> InstListX(r, RF(c), LF(c), c.j)]
+\* ---- the collision family: a record carries an ORDINARY field named like the OUTPUT join field (-j o -l l -r r, and a left
+\* or right record with a field o; template name "@j").  Which of the two values the output field o then shows is not
+\* documented; these cases are judged by a law only: every output record is a record - no two of its fields have the same
+\* name - and the run succeeds.
+InstJ(t, fs, js) == [i \in 1..Len(t) |-> IF t[i][1] = "@j" THEN <<(IF js[1] \notin Range(fs) THEN js[1] ELSE "w"), t[i][2]>> ELSE Inst(<<t[i]>>, fs)[1]]
+InstListJ(s, fs, js) == [i \in 1..Len(s) |-> InstJ(s[i], fs, js)]
+LT5 == { <<F("#1", "a"), F("@j", "99"), F("x", "1")>>, <<F("#1", "b"), F("x", "2")>>, <<F("#1", "b"), F("@j", "98")>> }
+RT5 == { <<F("#1", "a"), F("y", "1")>>, <<F("#1", "a"), F("@j", "1000"), F("y", "2")>>, <<F("#1", "c"), F("@j", "7")>> }
+Configs5 == {Cfg(n, e, lp, rp, NoLk, FALSE, mode, "", ",") :
+               n \in {n \in Names1 : n.j # LF(n) \/ n.j # RF(n)}, e \in Emits, lp \in {"", "L_"}, rp \in {"", "R_"}, mode \in {"", "-s"}}
+Lefts5(c, n) == {s \in Lists(LT5, n) : c.mode = "-s" => SortedBy(Ref1(FALSE), s, <<"#1">>)}
+Rights5(c, n) == {s \in Lists(RT5, n) : c.mode = "-s" => SortedBy(Ref1(FALSE), s, <<"#1">>)}
+CaseJ(c, l, r) == [c |-> c, left |-> InstListJ(l, LF(c), c.j), right |-> InstListJ(r, RF(c), c.j), law |-> "distinct-names"]
 =============================================================================
